@@ -26,8 +26,8 @@ func init() {
 				Procs:    16,
 				Rule: "case = history of Add/Pop/Remove/Set/Reorder/Clear/NewWithData with an update callback installed (distinct elements = unique tags, keys with many ties so that equal-priority elements meet), removals chosen both by raw offset and by the reported position of a chosen held element, followed by a drain with positions re-checked after every Pop; " +
 					"plus Set of every length 0..64 in ascending/descending/constant order (placement reports without any swap) and the LRU store's own usage pattern driven through cache.Cache with the key->offset index cross-checked against the heap by the cache hook after every call. " +
-					"After EVERY op: Peek(last reported position) == element for every tracked held element; Add's return == last reported position. distinct = hash of the op list; non-trivial = at least one Remove through a reported position at an interior offset",
-				Required:     []string{"histories", "position_checks", "removes_by_reported_position", "interior_removes", "reorders", "set_placement_sweeps", "lru_consumer_steps", "large_queue_histories", "big_element_histories"},
+					"very large queues (262143..1.2 M elements: positions of a sample at the peak, removals through them, conservation), and Reorders constructed to take exactly 2^j exchanges for j = 3..17 (queues of 2^(j+2)-1 elements ranked by tree level with two levels exchanged) with every position checked afterwards. After EVERY op: Peek(last reported position) == element for every tracked held element; Add's return == last reported position. distinct = hash of the op list; non-trivial = at least one Remove through a reported position at an interior offset",
+				Required:     []string{"histories", "position_checks", "removes_by_reported_position", "interior_removes", "reorders", "set_placement_sweeps", "lru_consumer_steps", "large_queue_histories", "big_element_histories", "very_large_queues", "power_of_two_exchange_reorders"},
 				Assumptions:  []string{"reports about elements that have already left the queue are ignored (the statement is about held elements)", "elements placed by NewWithData are not tracked (they did not enter through Add or Set)"},
 				CoverPkgs:    []string{"github.com/creachadair/mds/heapq", "github.com/creachadair/mds/cache"},
 				CoverAnchors: []string{"heapq/heapq.go:swap", "heapq/heapq.go:Add", "heapq/heapq.go:Set", "heapq/heapq.go:pop", "heapq/heapq.go:pushUp", "heapq/heapq.go:pushDown", "heapq/heapq.go:Update", "heapq/heapq.go:Remove", "heapq/heapq.go:Reorder", "cache/lru.go"},
@@ -141,6 +141,37 @@ func runC06(c *fw.Ctx) {
 		c.Max("max:queue_len", int64(st.maxLen))
 	}
 	idx += nl
+	// very large queues with the callback installed: reported positions of a
+	// sample at the peak, removals through them, conservation over the drain
+	if c.Begin(idx + 5100 + c.Block) {
+		sizes := []int{262143, 262144, 262145, 300000, 524289, 600000, 1048577, 1200000}
+		n := sizes[(c.Block+3)%len(sizes)]
+		ok, pv, stack := fw.Try(func() {
+			if pr := heapVeryLarge(c.Rng(), n, true, false, c.Step); pr != "" {
+				c.Fail(map[string]any{"elements": n, "update_callback": true}, "%s", pr)
+			}
+		})
+		if !ok {
+			c.FailKind("panic", map[string]any{"elements": n}, "panic: %v\n%s", pv, stack)
+		}
+		c.Add("very_large_queues", 1)
+		c.Max("max:queue_len", int64(n))
+	}
+	// Reorders that take exactly 2^j exchanges (j = 3..17, one or two per block)
+	for j := 3 + c.Block; j <= 17; j += c.NBlocks {
+		if !c.Begin(idx + 5200 + j) {
+			continue
+		}
+		ok, pv, stack := fw.Try(func() {
+			if pr := heapLevelSwap(j, c.Step); pr != "" {
+				c.Fail(map[string]any{"elements": 1<<(j+2) - 1, "reorder": fmt.Sprintf("by tree level with levels %d and %d exchanged", j, j+1)}, "%s", pr)
+			}
+		})
+		if !ok {
+			c.FailKind("panic", map[string]any{"elements": 1<<(j+2) - 1}, "panic: %v\n%s", pv, stack)
+		}
+		c.Add("power_of_two_exchange_reorders", 1)
+	}
 	// elements larger than 128 bytes, update callback installed
 	for k := 0; k < c.Pick(40, 600); k++ {
 		if !c.Begin(idx + k) {
